@@ -427,6 +427,55 @@ class ServerView:
             self.reset_tx()
 
 
+class _Request:
+    """Duck-typed rpc.CompilationRequest (the rpc module is a compiled extension): the attributes
+    Compiler.compile_in_tx reads."""
+    input_language = enums.InputLanguage.EDGEQL
+    output_format = enums.OutputFormat.BINARY
+    input_format = enums.InputFormat.BINARY
+    expect_one = False
+    implicit_limit = 0
+    inline_typeids = False
+    inline_typenames = False
+    inline_objectids = False
+    protocol_version = defines.CURRENT_PROTOCOL
+
+    def __init__(self, stmt, modaliases, session_config):
+        self.source = [stmt]
+        self.modaliases = modaliases
+        self.session_config = session_config
+
+    def get_cache_key(self):
+        return None
+
+
+def _real_compile_in_tx_preamble(state, txid, expect_rollback, modaliases, session_config, stmt):
+    """Runs the real Compiler.compile_in_tx with the module-level compile() replaced (for the duration
+    of the call) by a function that records the CompileContext, and edgeql.parse_block by one that returns
+    the hand-built statement (no parser).  Returns ('ctx', state, expect_rollback) when compile_in_tx
+    reached compile(), ('fastpath', unit_group, state) when it answered through _try_compile_rollback."""
+    seen = []
+
+    def fake_compile(*, ctx, source):
+        seen.append(ctx)
+        return None
+
+    def fake_parse_block(source):
+        return list(source)
+
+    comp = C.Compiler(CSTATE)
+    req = _Request(stmt, modaliases, session_config)
+    real_compile, real_parse = C.compile, C.edgeql.parse_block
+    C.compile, C.edgeql.parse_block = fake_compile, fake_parse_block
+    try:
+        group, st2 = comp.compile_in_tx(state=state, txid=txid, request=req, expect_rollback=expect_rollback)
+    finally:
+        C.compile, C.edgeql.parse_block = real_compile, real_parse
+    if seen:
+        return ('ctx', seen[0].state, seen[0].expect_rollback)
+    return ('fastpath', group, st2)
+
+
 def compile_stmt(srv: ServerView, op: int, ni: int, serial: int):
     """Compiler.compile() / compile_in_tx() for one statement; returns
     (unit, snapshot-compiled-against) or raises the compile error."""
@@ -439,15 +488,27 @@ def compile_stmt(srv: ServerView, op: int, ni: int, serial: int):
     else:
         state = srv.last_state
         expect_rollback = srv.tx_error
-        tx = state.current_tx()
-        # --- Compiler.compile_in_tx ---
-        if tx.get_modaliases() != srv.get_modaliases():
-            tx.update_modaliases(srv.get_modaliases())
-        if tx.get_session_config() != srv.get_config():
-            tx.update_session_config(srv.get_config())
-        if expect_rollback and state.current_tx().id != srv.txid and not state.can_sync_to_savepoint(srv.txid):
-            raise AssertionError('compiler cannot locate the server transaction id')
-        state.sync_tx(srv.txid)
+        # --- the real Compiler.compile_in_tx up to the point where it hands over to compile() ---
+        lost = (expect_rollback and state.current_tx().id != srv.txid
+                and not state.can_sync_to_savepoint(srv.txid))
+        try:
+            captured = _real_compile_in_tx_preamble(
+                state, srv.txid, expect_rollback, srv.get_modaliases(), srv.get_config(),
+                _stmt(op, ni, serial) if op not in (SET_CONFIG, DDL)
+                else qlast.SelectQuery(result=qlast.Constant.integer(1)))
+        except errors.TransactionError:
+            if lost:
+                raise AssertionError('compiler cannot locate the server transaction id')
+            raise
+        if captured[0] == 'fastpath':
+            if lost:
+                raise AssertionError('compiler cannot locate the server transaction id')
+            # the state-less ROLLBACK fast path was taken although the compiler still tracks the
+            # transaction: the unit is what the real code returned, the state is left as it was
+            group, st2 = captured[1], captured[2]
+            return group[0], alpha(st2), st2
+        state = captured[1]
+        expect_rollback = captured[2]
     against = alpha(state)
     ctx = _ctx(state, expect_rollback)
     if op == SET_CONFIG or op == DDL:
